@@ -150,6 +150,9 @@ fn exec(c: &Call) -> Vec<u64> {
 /// A result: the words returned, or the panic message.
 pub type Res = Result<Vec<u64>, String>;
 
+/// Size of the sub-alphabet whose ordered quadruples are enumerated.
+const QUAD_ALPHABET: usize = 12;
+
 pub fn run(c: &Call) -> Res {
   guarded(|| exec(c))
 }
@@ -209,6 +212,7 @@ pub fn check_history_independence(ctx: &Ctx, name: &str, alpha: &[Call], triple:
   // 2. one history on one dedicated thread: for i, for j: call i, call j
   let mut pairs_done = 0u64;
   let mut triples_done = 0u64;
+  let mut quads_done = 0u64;
   let mut capped = false;
   let found: Option<(Vec<usize>, Res)> = fresh(|| {
     let mut hist: Vec<usize> = Vec::new();
@@ -256,8 +260,30 @@ pub fn check_history_independence(ctx: &Ctx, name: &str, alpha: &[Call], triple:
         }
       }
     }
+    // all ordered quadruples of the first calls of the triple sub-alphabet
+    let quad: Vec<usize> = triple.iter().copied().take(QUAD_ALPHABET).collect();
+    for &i in &quad {
+      if ctx.over_budget() {
+        capped = true;
+        return None;
+      }
+      for &j in &quad {
+        for &k in &quad {
+          for &l in &quad {
+            for &c in &[i, j, k, l] {
+              if let Some(r) = step(c, &mut hist) {
+                return Some((hist.clone(), r));
+              }
+            }
+            quads_done += 1;
+          }
+        }
+      }
+    }
     None
   });
+  total.stratum("call-sequences:quadruples", quads_done, 4 * quads_done);
+  total.validated += 4 * quads_done;
   total.stratum("call-sequences:pairs", pairs_done, 2 * pairs_done);
   total.stratum("call-sequences:triples", triples_done, 3 * triples_done);
   total.validated += 2 * pairs_done + 3 * triples_done;
@@ -286,7 +312,7 @@ pub fn check_history_independence(ctx: &Ctx, name: &str, alpha: &[Call], triple:
       total.viol(violation(name, alpha, suffix, &alone[last], &got, false));
     }
   }
-  json!({"alphabet": name, "calls": n, "ordered_pairs": pairs_done, "triple_alphabet": triple.len(), "ordered_triples": triples_done,
+  json!({"alphabet": name, "calls": n, "ordered_pairs": pairs_done, "triple_alphabet": triple.len(), "ordered_triples": triples_done, "quadruple_alphabet": triple.len().min(QUAD_ALPHABET), "ordered_quadruples": quads_done,
     "oracle": "bit-identical to the same call made alone in a fresh thread", "wall_s": t0.elapsed().as_secs_f64()})
 }
 
@@ -316,7 +342,16 @@ pub fn replay(case: &Value, alpha: &[Call]) -> Option<Viol> {
 /// The small value set used in every floating-point argument role.
 pub fn shared_values() -> Vec<f64> {
   let tl = crate::refm::transition_lat();
-  vec![0.0, 0.25, -0.25, 0.5, -0.5, 0.7, -0.7, tl, -tl, 0.75, 1.0, -1.0, 1.2, -1.2, 1.5, -1.5, std::f64::consts::FRAC_PI_4, std::f64::consts::FRAC_PI_2, -std::f64::consts::FRAC_PI_2, 2.0, -2.0, 3.0, 5.5]
+  let mut v = vec![0.0, 0.25, -0.25, 0.5, -0.5, 0.7, -0.7, tl, -tl, 0.75, 1.0, -1.0, 1.2, -1.2, 1.5, -1.5, std::f64::consts::FRAC_PI_4, std::f64::consts::FRAC_PI_2, -std::f64::consts::FRAC_PI_2, 2.0, -2.0, 3.0, 5.5];
+  v.extend(near_values());
+  v
+}
+
+/// Values one ulp / 1e-9 away from alphabet values: they collide with them under any key that
+/// truncates the argument (f32 cast, fixed-point rounding, integer part).
+pub fn near_values() -> Vec<f64> {
+  use crate::refm::{next_down, next_up};
+  vec![next_up(0.5), next_down(0.5), next_up(1.0), next_down(1.0), 0.5 + 1e-9, 0.7 - 1e-9, 1.0 + 3e-8]
 }
 
 // ---------------------------------------------------------------------------------------------
@@ -325,7 +360,9 @@ pub fn shared_values() -> Vec<f64> {
 
 fn vs() -> Vec<f64> {
   let tl = crate::refm::transition_lat();
-  vec![0.0, 0.25, -0.25, 0.5, 0.7, tl, -tl, 1.0, -1.2, 1.5, std::f64::consts::FRAC_PI_4, std::f64::consts::FRAC_PI_2, 2.0, 3.0, 5.5]
+  let mut v = vec![0.0, 0.25, -0.25, 0.5, 0.7, tl, -tl, 1.0, -1.2, 1.5, std::f64::consts::FRAC_PI_4, std::f64::consts::FRAC_PI_2, 2.0, 3.0, 5.5];
+  v.extend(near_values());
+  v
 }
 
 fn lats(v: &[f64]) -> Vec<f64> {
